@@ -158,9 +158,24 @@ func Not(a *Term) *Term {
 	return App("not", Bool, a)
 }
 
+// eqConst decomposes (= x c) with c a constant.
+func eqConst(t *Term) (x, c *Term, ok bool) {
+	if t.Op != "=" {
+		return nil, nil, false
+	}
+	if t.Args[1].IsConst() {
+		return t.Args[0], t.Args[1], true
+	}
+	if t.Args[0].IsConst() {
+		return t.Args[1], t.Args[0], true
+	}
+	return nil, nil, false
+}
+
 func And(as ...*Term) *Term {
 	var out []*Term
 	seen := map[*Term]bool{}
+	bind := map[*Term]*Term{} // x -> constant it is equal to
 	var add func(t *Term) bool
 	add = func(t *Term) bool {
 		if t.IsFalse() {
@@ -179,6 +194,20 @@ func And(as ...*Term) *Term {
 		}
 		if seen[Not(t)] {
 			return false
+		}
+		// x = c1 together with x = c2 (distinct constants) is false; x != c2 is
+		// implied by x = c1
+		if x, c, ok := eqConst(t); ok {
+			if b, have := bind[x]; have {
+				return b == c
+			}
+			bind[x] = c
+		} else if t.Op == "not" {
+			if x, c, ok := eqConst(t.Args[0]); ok {
+				if b, have := bind[x]; have {
+					return b != c
+				}
+			}
 		}
 		seen[t] = true
 		out = append(out, t)
